@@ -9,7 +9,8 @@
 
   The path (`struct path` + its array buffer) is kept as: committed elements, the pending bytes
   behind them (`buf->_used - len`), the KeepPost flag, "has a buffer", and the 8 bit `first`.
-  `parser_context.valid` is 16 bit: every assignment truncates (`valid16`).
+  `parser_context.valid` is a `size_t` (it was 16 bit and wrapped, see known-findings.txt); the
+  model keeps it as a natural number.
 
   Assumptions (checked by the correspondence run only): the `getc` callback returns 0..255 or a
   negative end marker; allocation never fails; `<ctype.h>` classes are those of the "C" locale.
@@ -126,7 +127,7 @@ def ncheck (name : List UInt8) (take : Nat) : Option Err :=
 /-! ### the path -/
 structure Path where
   elems   : List (List UInt8) := []   -- committed elements, root first
-  pending : List UInt8 := []          -- bytes behind the committed part
+  pending : Array UInt8 := #[]        -- bytes behind the committed part (`buf->_used - len` of them)
   keep    : Bool := false             -- MPT_PATHFLAG(KeepPost)
   hasBuf  : Bool := false             -- base != NULL, MPT_PATHFLAG(HasArray)
   first   : UInt8 := 0                -- 8 bit length of the first element
@@ -138,32 +139,42 @@ def sep : UInt8 := 46
 
 /-- `mpt_path_addchar`: overwrite the last pending character until it was declared valid -/
 def addchar (p : Path) (c : UInt8) : Path :=
-  if !p.hasBuf then { p with pending := p.pending ++ [c], hasBuf := true }
-  else if !p.pending.isEmpty && !p.keep then { p with pending := p.pending.dropLast ++ [c] }
-  else { p with pending := p.pending ++ [c] }
+  match p with
+  | { elems, pending, keep, hasBuf, first } =>
+    if !hasBuf then { elems, pending := pending.push c, keep, hasBuf := true, first }
+    else if pending.size != 0 && !keep then { elems, pending := pending.pop.push c, keep, hasBuf, first }
+    else { elems, pending := pending.push c, keep, hasBuf, first }
 
 /-- `mpt_path_delchar` (result ignored by the parser) -/
 def delchar (p : Path) : Path :=
-  if !p.hasBuf then p else { p with pending := p.pending.dropLast }
+  match p with
+  | { elems, pending, keep, hasBuf, first } =>
+    if !hasBuf then { elems, pending, keep, hasBuf, first }
+    else { elems, pending := pending.pop, keep, hasBuf, first }
 
 /-- `mpt_path_valid`: number of pending bytes; they are kept from now on -/
 def valid (p : Path) : Nat × Path :=
-  if !p.hasBuf then (0, p)
-  else (p.pending.length, if p.pending.isEmpty then p else { p with keep := true })
+  match p with
+  | { elems, pending, keep, hasBuf, first } =>
+    if !hasBuf then (0, { elems, pending, keep, hasBuf, first })
+    else (pending.size, { elems, pending, keep := keep || pending.size != 0, hasBuf, first })
 
 /-- `mpt_path_invalidate`: drop the pending bytes -/
 def invalidate (p : Path) : Path :=
-  if !p.hasBuf then p else { p with pending := [], keep := false }
+  if !p.hasBuf then p else { p with pending := #[], keep := false }
+
+/-- the first `n` pending bytes -/
+def head (p : Path) (n : Nat) : List UInt8 := (p.pending.extract 0 n).toList
 
 /-- `mpt_path_add(path, n)`: the first `n` pending bytes become a new element, one more byte is the
     separator/assign slot -/
 def add (p : Path) (n : Nat) : Except Err Path :=
   if !p.hasBuf then .error .MissingBuffer
-  else if p.pending.length < n then .error .BadValue
-  else if (p.pending.take n).contains sep then .error .BadValue
+  else if p.pending.size < n then .error .BadValue
+  else if (p.head n).contains sep then .error .BadValue
   else .ok { p with
-    elems := p.elems ++ [p.pending.take n]
-    pending := p.pending.drop (n + 1)
+    elems := p.elems ++ [p.head n]
+    pending := p.pending.extract (n + 1) p.pending.size
     first := if p.elems.isEmpty then UInt8.ofNat n else p.first
     keep := false }
 
@@ -172,7 +183,7 @@ def del (p : Path) : Except Err Path :=
   if p.elems.isEmpty then .error .MissingData
   else .ok { p with
     elems := p.elems.dropLast
-    pending := []
+    pending := #[]
     first := if p.elems.dropLast.isEmpty then 0 else p.first
     keep := false }
 end Path
@@ -220,7 +231,7 @@ end Flag
 /-- the part of `parser_context` + `path` a format function changes -/
 structure St where
   path  : Path := {}
-  valid : Nat := 0     -- parser_context.valid (16 bit)
+  valid : Nat := 0     -- parser_context.valid (size_t since the `fix:` commit; was 16 bit)
   curr  : Nat := 0     -- parser_context.curr
   line  : Nat := 1     -- parser_input.line
   deriving Repr, DecidableEq, Inhabited
@@ -233,23 +244,25 @@ structure Cfg where
   eof  : Int := -2      -- the end marker of the source (-2 end of input, -1 read error)
   deriving Repr, Inhabited
 
-/-- assignment to the 16 bit `valid` -/
-def valid16 (n : Nat) : Nat := n % 65536
-
 namespace St
 /-- `parse->valid = mpt_path_valid(path)` -/
 def markValid (s : St) : St :=
-  let r := s.path.valid
-  { s with valid := valid16 r.1, path := r.2 }
+  match s with
+  | { path, valid := _, curr, line } =>
+    let r := path.valid
+    { path := r.2, valid := r.1, curr, line }
 
 /-- what `mpt_parse_getchar` does with a delivered character: count lines, save into the path.
     A zero byte is returned to the caller without being counted or saved. -/
 def save (s : St) (c : UInt8) : St :=
   if c == 0 then s
-  else { s with line := if c == 10 then s.line + 1 else s.line, path := s.path.addchar c }
+  else
+    match s with
+    | { path, valid, curr, line } =>
+      { path := path.addchar c, valid, curr, line := if c == 10 then line + 1 else line }
 
 /-- the name the pending area holds: `valid` bytes behind the path -/
-def name (s : St) : List UInt8 := s.path.pending.take s.valid
+def name (s : St) : List UInt8 := s.path.head s.valid
 
 /-- `ncheck(…, valid, flags)` then `mpt_path_add(path, valid)`; errors as the callers map them -/
 def commit (s : St) (flags : Nat) (eCheck eAdd : Err) : Except Err St :=
